@@ -90,6 +90,8 @@ pub struct Tr<'a> {
     pub ret_coq: String,
     /// enclosing loops: (continue expression, break placeholder)
     pub loops: Vec<(String, String)>,
+    /// inside the closure of `core::iter::from_fn(move || ..)`: (recursive call of the generator Fixpoint, flatten?, item type)
+    pub gen: Option<(String, bool, std::cell::RefCell<Option<Ty>>)>,
     /// roots assigned anywhere in the function body
     pub fn_assigned: BTreeSet<String>,
     /// the file the translated function is in (tie-break for type names)
@@ -188,6 +190,27 @@ pub fn conv_ty(t: &Type, adts: &dyn Fn(&str) -> Option<Ty>, generics: &BTreeSet<
                 Ok(Ty::Tuple(tt.elems.iter().map(|x| conv_ty(x, adts, generics, self_ty)).collect::<R<Vec<_>>>()?))
             }
         }
+        Type::ImplTrait(it) => {
+            // `impl Iterator<Item = T> + '_` as a RETURN type: the list of the items the iterator yields
+            for b in it.bounds.iter() {
+                if let TypeParamBound::Trait(tb) = b {
+                    if let Some(s) = tb.path.segments.last() {
+                        if s.ident == "Iterator" {
+                            if let PathArguments::AngleBracketed(a) = &s.arguments {
+                                for g in a.args.iter() {
+                                    if let GenericArgument::AssocType(at) = g {
+                                        if at.ident == "Item" {
+                                            return Ok(Ty::Slice(Box::new(conv_ty(&at.ty, adts, generics, self_ty)?)));
+                                        }
+                                    }
+                                }
+                            }
+                        }
+                    }
+                }
+            }
+            Err(unsupported(t, "`impl Trait` type (only `impl Iterator<Item = T>`)"))
+        }
         Type::TraitObject(to) => {
             // `dyn Trait` where `Trait` is configured as an `extern` type (its methods are Coq functions of the value)
             for b in to.bounds.iter() {
@@ -254,6 +277,10 @@ pub fn conv_ty(t: &Type, adts: &dyn Fn(&str) -> Option<Ty>, generics: &BTreeSet<
                     }
                 }
                 return Err(unsupported(t, "`slice::Windows` without its element type"));
+            }
+            if name == "str" && p.path.segments.len() == 1 {
+                // `&str`: the list of its chars (code points)
+                return Ok(Ty::Slice(Box::new(Ty::Int(Some(IntTy::U32)))));
             }
             if name == "char" && p.path.segments.len() == 1 {
                 // a `char` is its code point
@@ -656,7 +683,8 @@ impl<'a> Tr<'a> {
             Pat::Lit(l) => match &l.lit {
                 Lit::Int(i) => Ok(lit(i.base10_parse::<i128>().map_err(|e| e.to_string())?)),
                 Lit::Bool(b) => Ok(if b.value { "true".into() } else { "false".into() }),
-                _ => Err(unsupported(p, "literal pattern that is not an integer or bool")),
+                Lit::Char(c) => Ok(lit(c.value() as i128)),
+                _ => Err(unsupported(p, "literal pattern that is not an integer, char or bool")),
             },
             Pat::Or(o) => {
                 // every alternative must bind the same variables; they get the same Coq names
